@@ -92,3 +92,18 @@ VARIANTS += [
     dict(id="c20-journal-studies-not-copied", prop="C20", file=JS, expect="R20.7",
          old="            return copy.deepcopy(self._replay_result.get_all_studies())\n", new="            return self._replay_result.get_all_studies()\n"),
 ]
+
+IM20 = "optuna/storages/_in_memory.py"
+JS20 = "optuna/storages/journal/_storage.py"
+VARIANTS += [
+    # F12 shape: study attribute dict handed out by reference and updated in place
+    dict(id="c20-f12-shape-inmem-study-attr-in-place", prop="C20", file=IM20, expect="R20.8",
+         old="            study = self._studies[study_id]\n            study.user_attrs = {**study.user_attrs, key: value}\n",
+         new="            self._studies[study_id].user_attrs[key] = value\n"),
+    dict(id="c20-f12-shape-journal-study-attr-in-place", prop="C20", file=JS20, expect="R20.8",
+         old="            study = self._studies[study_id]\n            study.system_attrs = {**study.system_attrs, **log[\"system_attr\"]}\n",
+         new="            self._studies[study_id].system_attrs.update(log[\"system_attr\"])\n"),
+    dict(id="c20-neutral-study-attr-getter-copies", prop="C20", file=IM20, expect=None,
+         old="            study = self._studies[study_id]\n            study.user_attrs = {**study.user_attrs, key: value}\n",
+         new="            study = self._studies[study_id]\n            new_attrs = dict(study.user_attrs)\n            new_attrs[key] = value\n            study.user_attrs = new_attrs\n"),
+]
